@@ -310,12 +310,13 @@ def write_evidence(ctx, n_viol):
     (ROOT / "evidence" / f"{ctx.prop}.json").write_text(json.dumps(ev, indent=1, default=str) + "\n")
 
 
-def standard_obligations(ctx, theorems, extra_targets=()):
+def standard_obligations(ctx, theorems, extra_targets=(), extra_audit=None):
     """Steps 1-2 of the decision procedure: build, forbidden-token scan, axiom audit."""
     module = f"HedVerif.Props.{ctx.prop}"
     ctx.scratch = tempfile.mkdtemp(prefix="hedverif_run_")
     snap = os.path.join(ctx.scratch, "hedmodel")
-    ok, log = lake_build([module, "hedmodel", *extra_targets], snapshot_exe=snap)
+    extra_audit = list(extra_audit or [])
+    ok, log = lake_build([module, "hedmodel", *extra_targets, *[m for m, _ in extra_audit]], snapshot_exe=snap)
     if os.path.exists(snap):
         ctx.model.exe = snap
     if not ok:
@@ -342,4 +343,17 @@ def standard_obligations(ctx, theorems, extra_targets=()):
             ctx.obligation(t, False, f"axioms {ax}")
         else:
             ctx.obligation(t, True, ",".join(ax))
+    # theorems of this property that live in another module (e.g. compositions with other properties' models)
+    for emod, names in extra_audit:
+        hits2 = forbidden_scan(emod)
+        ctx.obligation(f"forbidden-token-scan:{emod}", not hits2, "\n".join(hits2))
+        res2, out2 = audit(emod, names)
+        for t in names:
+            ax = res2.get(t)
+            if ax is None:
+                ctx.obligation(t, False, "theorem missing: " + out2[-400:])
+            elif not set(ax) <= ALLOWED_AXIOMS:
+                ctx.obligation(t, False, f"axioms {ax}")
+            else:
+                ctx.obligation(t, True, ",".join(ax))
     return True
